@@ -3,6 +3,7 @@ package checks
 import (
 	"reflect"
 	"regexp"
+	"strings"
 
 	"mvdan.cc/sh/v3/syntax"
 
@@ -48,8 +49,36 @@ func c07Class(t c07Case, full string, s *c07Sched, kind string, ref, got *c07Res
 		// rune arrives alone in a read: peekTwo refills only once and then
 		// reports "no second byte"
 		return "zsh-doubled-flag-split"
+	case kind != "panic" && kind != "pos" && c07BquoteRunSplit(full, ref, got):
+		// inside backquotes a read ends between a backslash that directly
+		// follows another backslash and the $ ` \ " it escapes: rune() skips
+		// peek() when the previous rune was a backslash and then looks at the
+		// buffer directly, finds it exhausted and keeps the backslash
+		return "bquote-escape-split-after-backslash-pair"
 	}
 	return ""
+}
+
+// c07BquoteRunSplit: a read of either parse ends at q, 0<q<len, where
+// full[q-2:q] is two backslashes, full[q] is a byte that backquotes escape
+// ($ ` \, or "), and a backquote occurs before the run.
+func c07BquoteRunSplit(full string, results ...*c07Result) bool {
+	for _, r := range results {
+		for _, q := range r.cuts {
+			if q < 3 || q >= len(full) || full[q-1] != '\\' || full[q-2] != '\\' {
+				continue
+			}
+			switch full[q] {
+			case '$', '`', '\\', '"':
+			default:
+				continue
+			}
+			if strings.IndexByte(full[:q-2], '`') >= 0 {
+				return true
+			}
+		}
+	}
+	return false
 }
 
 var c07ZshPair = regexp.MustCompile(`==|~~|\^\^`)
